@@ -123,6 +123,11 @@ fn dec(s: &str) -> String {
 const BUDGET_MSG: &str = "C09-STEP-BUDGET";
 const DEPTH_MSG: &str = "C09-INPUT-DEPTH";
 
+/// Largest `num_current_sources()` seen by the expansion hook during the last run.
+static MAX_SOURCES: std::sync::atomic::AtomicUsize = std::sync::atomic::AtomicUsize::new(0);
+/// Titles of the recoverable errors that the last run recovered from (from the log), in order.
+static RECOVERED_TITLES: std::sync::Mutex<Vec<String>> = std::sync::Mutex::new(Vec::new());
+
 #[derive(Default)]
 struct MemFs {
     files: HashMap<std::path::PathBuf, String>,
@@ -200,6 +205,7 @@ impl TexlangState for H {
         // `\input` refuses to nest deeper than 100 levels ("too many input levels"); an input
         // stack beyond that means the recursion limit is gone and the run would only end by
         // exhausting memory (the step budget must not hide that).
+        MAX_SOURCES.fetch_max(input.vm().num_current_sources(), std::sync::atomic::Ordering::Relaxed);
         if input.vm().num_current_sources() > 105 {
             panic!("{}", DEPTH_MSG);
         }
@@ -360,6 +366,7 @@ const FILES: &[(&str, &str)] = &[
     ("open.tex", "line {one\n"),
     ("end.tex", "before\\endinput after\nnext line\n"),
     ("err.tex", "\n\n  \u{e9}\u{e9} \\undefinedinfile\n"),
+    ("chain.tex", "\\advance\\count1 by 1 \\ifnum\\count1<\\count2 \\input chain \\fi"),
 ];
 
 const TERM_LINES: &[&str] = &["hello {world}\n", "\u{e9}{\n", "}\\count\n", "x"];
@@ -434,11 +441,17 @@ fn excerpts_of(e: &error::TracedTexError) -> Vec<Excerpt> {
 }
 
 fn run_program(src: &str, proto: bool, budget: u64) -> Outcome {
+    MAX_SOURCES.store(0, std::sync::atomic::Ordering::Relaxed);
+    RECOVERED_TITLES.lock().unwrap().clear();
     let r = caught(|| {
         let mut vm = make_vm(proto, budget);
         let _ = vm.push_source("input.tex", src);
         let r = sl::script::run_to_string(&mut vm);
-        let n_recovered = String::from_utf8_lossy(&vm.state.log.borrow()).matches("Error").count();
+        // every recovered error is rendered into the log; its first line is `Error: <title>`
+        let log = strip_ansi(&String::from_utf8_lossy(&vm.state.log.borrow()));
+        let titles: Vec<String> = log.lines().filter_map(|l| l.strip_prefix("Error: ")).map(|t| t.to_string()).collect();
+        let n_recovered = titles.len();
+        *RECOVERED_TITLES.lock().unwrap() = titles;
         (r, n_recovered)
     });
     match r {
@@ -1602,6 +1615,122 @@ impl C09 {
         }
     }
 
+    /// `\\newIntArray` storage against the Lean `runOps` (which is under `array_access_total`).
+    fn alloc_stream(&mut self, case: &str, rest: &str, drv: &mut Driver, o: &mut CaseOutcome) {
+        let names = ["\\J", "\\K", "\\L", "\\N"];
+        let ws: Vec<&str> = rest.split_ascii_whitespace().collect();
+        let mut src = String::from("\\scrollmode ");
+        let mut i = 0;
+        while i < ws.len() {
+            let name = |k: usize| names[ws[k].parse::<usize>().unwrap_or(0) % names.len()];
+            match ws[i] {
+                "n" if i + 2 < ws.len() => {
+                    src.push_str(&format!("\\newIntArray{} {} ", name(i + 1), ws[i + 2]));
+                    i += 3;
+                }
+                "w" if i + 3 < ws.len() => {
+                    src.push_str(&format!("{} {}={} ", name(i + 1), ws[i + 2], ws[i + 3]));
+                    i += 4;
+                }
+                "r" if i + 2 < ws.len() => {
+                    src.push_str(&format!("\\the{} {} /", name(i + 1), ws[i + 2]));
+                    i += 3;
+                }
+                _ => {
+                    o.fail(Kind::ModelVsSpec, "alloc", "bad case", case.to_string());
+                    return;
+                }
+            }
+        }
+        o.nontrivial = true;
+        let rep = drv.ask(case);
+        let model: Vec<&str> = rep.split_ascii_whitespace().collect();
+        if model.contains(&"panic") {
+            o.fail(Kind::ModelVsSpec, "alloc", "alloc: model panics", format!("{case} -> {rep}"));
+        }
+        let want_vals: Vec<String> = model.iter().filter_map(|w| w.strip_prefix('v')).map(|v| v.to_string()).collect();
+        let want_rec = model.iter().filter(|w| **w == "rec").count();
+        let want_fatal = model.last() == Some(&"fatal");
+        o.tag(if want_fatal { "alloc:fatal" } else { "alloc:ok" });
+        let (got_vals, got_rec, got_fatal, detail) = match run_program(&src, false, 200_000) {
+            Outcome::Ok(out, n) => (out, n, false, String::new()),
+            Outcome::Err { title, n_recovered, .. } => (String::new(), n_recovered, true, title),
+            Outcome::Panic(m) => {
+                o.fail(Kind::ImplPanic, "alloc", sig_of_panic(&m), format!("{src}: {m}"));
+                return;
+            }
+            _ => {
+                o.fail(Kind::ModelVsSpec, "alloc", "alloc: budget", src);
+                return;
+            }
+        };
+        if got_fatal != want_fatal || got_rec != want_rec {
+            o.fail(Kind::ImplVsModel, "alloc", "alloc: errors differ", format!("{src}: real fatal={got_fatal} ({detail}) recovered={got_rec}, model {rep}"));
+        } else if !got_fatal {
+            let got: Vec<String> = got_vals.split('/').map(|v| v.trim().to_string()).filter(|v| !v.is_empty()).collect();
+            if got != want_vals {
+                o.fail(Kind::ImplVsModel, "alloc", "alloc: values differ", format!("{src}: real {got:?}, model {rep}"));
+            }
+        }
+    }
+
+    /// Nested `\\input` against the Lean `depths` (which is under `input_depth_invariant`).
+    fn depth_stream(&mut self, case: &str, k: usize, drv: &mut Driver, o: &mut CaseOutcome) {
+        let src = format!("\\count1=0 \\count2={k} \\input chain done");
+        o.nontrivial = true;
+        // the chain file inputs itself until \\count1 reaches k: at least once
+        let rep = drv.ask(&format!("depth {}", k.max(1)));
+        let (got_end, detail) = match run_program(&src, false, 400_000) {
+            Outcome::Ok(..) => ("ok", String::new()),
+            Outcome::Err { title, .. } => ("fatal", title),
+            Outcome::Panic(m) => {
+                o.fail(Kind::ImplPanic, "depth", sig_of_panic(&m), format!("{src}: {m}"));
+                return;
+            }
+            Outcome::Unbounded(w) => {
+                o.fail(Kind::ImplVsSpec, "depth", "input nesting exceeds the 100-level limit", w);
+                return;
+            }
+            Outcome::Budget => ("budget", String::new()),
+        };
+        let got = format!("max={} end={}", MAX_SOURCES.load(std::sync::atomic::Ordering::Relaxed), got_end);
+        o.tag(format!("depth:{got_end}"));
+        if got != rep || (got_end == "fatal" && !detail.starts_with("too many input levels")) {
+            o.fail(Kind::ImplVsModel, "depth", "input depth: differs", format!("{src}: real {got} ({detail}), model {rep}"));
+        }
+    }
+
+    /// The same program in scroll and in errorstop mode: what scroll mode shows (k recovered
+    /// errors, then a normal or fatal end) determines, through the Lean `run`, the outcome of
+    /// both modes (`errorstop_first_recoverable`, `recovering_mode_skips_recoverable`).
+    fn modes_stream(&mut self, prog: &str, drv: &mut Driver, o: &mut CaseOutcome) {
+        let classify = |out: Outcome| -> Option<(String, String)> {
+            match out {
+                Outcome::Ok(..) => Some(("ok".into(), String::new())),
+                Outcome::Err { title, .. } => Some(("err".into(), title)),
+                _ => None, // panics and budget are the business of the `run` stream
+            }
+        };
+        let Some((s_out, s_title)) = classify(run_program(&format!("\\scrollmode {prog}"), false, 6000)) else { return };
+        let titles = RECOVERED_TITLES.lock().unwrap().clone();
+        // same prefix length so that locations agree: errorstop is the default mode
+        let Some((e_out, e_title)) = classify(run_program(&format!("\\errorstopmode {prog}"), false, 6000)) else { return };
+        o.nontrivial = true;
+        let k = titles.len();
+        o.tag(format!("modes:recovered={},end={}", k.min(3), s_out));
+        let rep = drv.ask(&format!("shape {k} {}", if s_out == "ok" { "end" } else { "fatal" }));
+        let want = format!("scroll={s_out} errorstop={e_out}");
+        if rep != want {
+            o.fail(Kind::ImplVsModel, "modes", "modes: outcome differs from the protocol machine", format!("{prog:?}: real {want} (scroll recovered {k}), model {rep}"));
+        } else if e_out == "err" {
+            // the error that stops errorstop mode is the first one scroll mode recovered from
+            let first = titles.first().cloned().unwrap_or(s_title);
+            if first != e_title {
+                o.fail(Kind::ImplVsModel, "modes", "modes: errorstop stops at another error", format!("{prog:?}: scroll first reports {first:?}, errorstop ends with {e_title:?}"));
+            }
+        }
+    }
+
     /// Error location: `prefix` (plain text, several lines, non-ASCII) followed by an undefined
     /// control sequence; the trace of the error token is compared with the Lean `trace`.
     fn loc_stream(&mut self, prefix: &str, drv: &mut Driver, o: &mut CaseOutcome) {
@@ -1875,7 +2004,60 @@ impl Property for C09 {
                 let p = ctxt.replace("{}", name).replace("{{", "{").replace("}}", "}");
                 let m = *r.pick(MODES);
                 out.push(format!("run {m} {}", enc(&p)));
+                if !name.ends_with("mode") {
+                    out.push(format!("modes {}", enc(&p)));
+                }
             }
+        }
+        for c in sl::ErrorCase::all_error_cases() {
+            out.push(format!("modes {}", enc(c.source_code)));
+            out.push(format!("modes {}", enc(&format!("\\count1=x \\dimen1=1 {} trailing \\undefinedlast", c.source_code))));
+        }
+        for (i, parts) in failing_scan_programs(&mut rng.fork(), false).into_iter().enumerate() {
+            if i % 9 == 0 {
+                out.push(format!("modes {}", enc(&parts.concat())));
+            }
+        }
+        // --- input depth against the model
+        for k in [0usize, 1, 2, 50, 97, 98, 99, 100, 101, 150, 1000] {
+            out.push(format!("depth {k}"));
+        }
+        // --- allocation against the model
+        let mut ra = rng.fork();
+        for _ in 0..(if ctx.thorough { 3000 } else { 500 }) {
+            let mut lens: Vec<i64> = vec![-1; 4];
+            let mut ops = vec![];
+            for _ in 0..ra.range(2, 14) {
+                let name = ra.below(3) as usize;
+                if lens[name] < 0 || ra.chance(1, 6) {
+                    // (re-)allocation; names are only accessed once they are allocated
+                    let len = *ra.pick(&[0i64, 1, 2, 3, 3, 7]);
+                    lens[name] = len;
+                    ops.push(format!("n {name} {len}"));
+                    continue;
+                }
+                let l = lens[name];
+                // mostly inside (a fatal error ends the run), the ends and beyond now and then
+                let i = match ra.below(8) {
+                    0 => *ra.pick(&[l, l + 1, 2147483646, 2147483647]),
+                    1 => *ra.pick(&[-1, -2147483647]),
+                    2 => l - 1,
+                    3 => 0,
+                    _ => ra.range(0, (l - 1).max(0)),
+                };
+                if ra.chance(1, 2) {
+                    ops.push(format!("w {name} {i} {}", ra.range(-9, 99)));
+                } else {
+                    ops.push(format!("r {name} {i}"));
+                }
+            }
+            // finally read every element of every array (aliasing would show here)
+            for (name, l) in lens.iter().enumerate() {
+                for i in 0..(*l).max(0) {
+                    ops.push(format!("r {name} {i}"));
+                }
+            }
+            out.push(format!("alloc {}", ops.join(" ")));
         }
         out.push("deep 200000".into());
         out.push("deep 200000 expandafter".into());
@@ -2005,6 +2187,15 @@ impl C09 {
             "loc" => {
                 let prefix = dec(rest);
                 self.loc_stream(&prefix, drv, &mut o);
+            }
+            "alloc" => self.alloc_stream(case, rest, drv, &mut o),
+            "depth" => {
+                let k: usize = rest.trim().parse().unwrap_or(1);
+                self.depth_stream(case, k, drv, &mut o);
+            }
+            "modes" => {
+                let prog = dec(rest);
+                self.modes_stream(&prog, drv, &mut o);
             }
             "deep" => {
                 let mut ws = rest.split_ascii_whitespace();
